@@ -1,8 +1,11 @@
 (* Property C19: lemmas about the LU model that are not in the general-n development LuGen*.v
    nor in LuPivot.v / LuDet3.v:
-   - a matrix whose LU run meets only nonzero pivots has a two-sided inverse, hence a trivial
-     kernel; contrapositive: an exactly singular matrix meets a zero pivot and the returned
-     determinant is 0 ([lu_singular_flagged], every n; needs a decidable zero test on K);
+   - a matrix whose LU run meets only nonzero pivots has a left inverse, hence a trivial
+     kernel; contrapositive: for an exactly singular matrix the EXACT-FIELD total model lu has a
+     zero on the diagonal of its final array and lu_d = 0 ([lu_singular_zero_pivot_exact_field],
+     every n; needs a decidable zero test on K).  This is a statement about the total model only
+     (which goes on with 1/0 = 0 after a zero pivot); what the C code returns (0 or NaN) is
+     LuNonsing.lu_c_outcome on the partial model LuPartial.lu_c;
    - the refutation of scale invariance for the pivot metric |s_i| * rowmax_i
      ([pivot_scale_invariant_refuted], a vm_compute witness over Q[i]) next to the positive
      instance for |s_i| / rowmax_i on the same matrices. *)
@@ -125,10 +128,11 @@ Proof.
       * right. intros j Hj. destruct (Nat.eq_dec j t) as [->|Hne]; [exact Hnz|apply Hall; lia].
 Qed.
 
-(* An exactly singular matrix (some nonzero vector in its kernel) meets a zero pivot, and the
-   determinant returned by _vnacommon_lu / mldivide / mrdivide / minverse is 0, which is what
-   the call sites test before reporting EDOM. *)
-Theorem lu_singular_flagged a n : wf n n a ->
+(* For an exactly singular matrix (some nonzero vector in its kernel) the final array of the total
+   exact-field model has a zero on its diagonal and the model's determinant accumulator is 0.
+   NOT a statement about the value the C code returns: after a zero pivot in a column j < n-1 the
+   model continues with 1/0 = 0 whereas binary64 produces inf and NaN (see LuPartial / LuNonsing). *)
+Theorem lu_singular_zero_pivot_exact_field a n : wf n n a ->
   (exists v, in_kernel a n v /\ exists k, k < n /\ v k <> 0) ->
   (exists j, j < n /\ mg (lu_a (lu a n)) j j = 0) /\ lu_d (lu a n) = 0.
 Proof.
@@ -149,8 +153,8 @@ Proof.
   - right. apply qi_neqb. exact E.
 Qed.
 
-(* non-vacuity of lu_singular_flagged: a 3x3 matrix with two equal rows, kernel vector found by
-   hand; both conclusions also checked by computation *)
+(* a 3x3 matrix with two equal rows (kernel vector: LuNonsingQI.sing_v); the exact-field determinant
+   checked by computation *)
 Definition sing_a : mat QIF :=
   [ [mkqi 1 1 0 1; mkqi 2 1 0 1; mkqi 0 1 1 1];
     [mkqi 3 1 0 1; mkqi 1 1 1 1; mkqi 2 1 0 1];
